@@ -188,6 +188,15 @@ func (w *Workload) GenTextN(r *model.Rand, n int) Base {
 	mode := model.Pick(r, []string{"syllable", "degree"})
 	o := &model.TextOpts{Mode: mode, MaxItems: 1, Trivia: r.Chance(1, 2), Unicode: r.Chance(1, 4), Meta: true, Musical: true, KnownSyms: w.ChordSyms}
 	var items []model.ItemT
+	if r.Chance(1, 5) {
+		// the piece opens with a long run of rests (more AST nodes than any
+		// buffer between the walker and its consumer holds)
+		k := 34 + r.Intn(60)
+		for i := 0; i < k; i++ {
+			items = append(items, model.ItemT{Rest: true, Values: []model.ValueT{{Num: "1"}}})
+		}
+		n += k
+	}
 	for len(items) < n {
 		items = append(items, model.GenItems(r, o)...)
 	}
@@ -218,7 +227,15 @@ func (w *Workload) GenDocCmd(r *model.Rand, big bool) Base {
 	if big {
 		o.MaxInsts = 120
 	}
+	if r.Chance(1, 150) {
+		// several hundred instances: outputs of a few hundred KiB
+		o.MaxInsts = 900
+		big = true
+	}
 	d := model.GenDoc(r, o)
+	for len(d.Insts) < 300 && o.MaxInsts == 900 {
+		d.Insts = append(d.Insts, model.GenDoc(r, o).Insts...)
+	}
 	if r.Chance(1, 12) {
 		// degrees far outside anything playable
 		i := r.Intn(len(d.Insts))
